@@ -8,7 +8,7 @@ Python way (``1.0``, ``NaN``, ``1e-07``).
 
 import math
 import re
-from typing import List, Optional
+from typing import Callable, List, Optional
 
 from .errors import JSSyntaxError, JSTypeError
 from .values import NULL, JSArray, JSObject, JSValue, js_typeof, to_string
@@ -210,10 +210,22 @@ def quote_json_string(value: str) -> str:
 class _JSONSerializer:
     """SerializeJSONProperty and friends; ``None`` stands for an undefined result."""
 
-    def __init__(self) -> None:
+    def __init__(self, call: Optional[Callable] = None) -> None:
+        self.call = call  # call(function, this_value, args) runs a script function
         self.stack: List[JSObject] = []
+        self.replacer: JSValue = None
+        self.property_list: Optional[List[str]] = None
+        self.gap = ""
+        self.indent = ""
 
-    def serialize(self, value: JSValue) -> Optional[str]:
+    def serialize(self, key: str, holder: JSObject, value: JSValue) -> Optional[str]:
+        if self.call is not None:
+            if isinstance(value, JSObject):
+                to_json = value.get("toJSON")
+                if js_typeof(to_json) == "function":
+                    value = self.call(to_json, value, [key])
+            if self.replacer is not None:
+                value = self.call(self.replacer, holder, [key, value])
         if value is NULL:
             return "null"
         if value is True:
@@ -228,29 +240,71 @@ class _JSONSerializer:
             if any(entry is value for entry in self.stack):
                 raise JSTypeError("Converting circular structure to JSON")
             self.stack.append(value)
+            stepback = self.indent
+            self.indent += self.gap
             try:
                 if isinstance(value, JSArray):
-                    return self.serialize_array(value)
-                return self.serialize_object(value)
+                    return self.serialize_array(value, stepback)
+                return self.serialize_object(value, stepback)
             finally:
+                self.indent = stepback
                 self.stack.pop()
         return None  # undefined, functions
 
-    def serialize_array(self, array: JSArray) -> str:
+    def serialize_array(self, array: JSArray, stepback: str) -> str:
         # An element without a JSON representation is written as null
-        items = [self.serialize(element) or "null" for element in array._elements]
-        return "[" + ",".join(items) + "]"
+        items = [
+            self.serialize(str(index), array, element) or "null"
+            for index, element in enumerate(list(array._elements))
+        ]
+        return self.join("[", items, "]", stepback)
 
-    def serialize_object(self, obj: JSObject) -> str:
+    def serialize_object(self, obj: JSObject, stepback: str) -> str:
         # A property without a JSON representation is left out
+        keys = obj.keys() if self.property_list is None else self.property_list
+        separator = ": " if self.gap else ":"
         members = []
-        for key in obj.keys():
-            text = self.serialize(obj.get(key))
+        for key in keys:
+            text = self.serialize(key, obj, obj.get(key))
             if text is not None:
-                members.append(quote_json_string(key) + ":" + text)
-        return "{" + ",".join(members) + "}"
+                members.append(quote_json_string(key) + separator + text)
+        return self.join("{", members, "}", stepback)
+
+    def join(self, opening: str, parts: List[str], closing: str, stepback: str) -> str:
+        if not parts:
+            return opening + closing
+        if not self.gap:
+            return opening + ",".join(parts) + closing
+        separator = ",\n" + self.indent
+        return opening + "\n" + self.indent + separator.join(parts) + "\n" + stepback + closing
 
 
-def json_stringify(value: JSValue) -> Optional[str]:
-    """JSON.stringify(value): the JSON text, or None when the result is undefined."""
-    return _JSONSerializer().serialize(value)
+def json_stringify(
+    value: JSValue,
+    replacer: JSValue = None,
+    space: JSValue = None,
+    call: Optional[Callable] = None,
+) -> Optional[str]:
+    """JSON.stringify(value, replacer, space): the text, or None for undefined.
+
+    ``call(function, this_value, args)`` runs toJSON methods and a replacer
+    function; without it they are ignored.
+    """
+    serializer = _JSONSerializer(call)
+    if js_typeof(replacer) == "function":
+        serializer.replacer = replacer
+    elif isinstance(replacer, JSArray):
+        serializer.property_list = []
+        for item in replacer._elements:
+            if isinstance(item, (int, float)) and not isinstance(item, bool):
+                item = to_string(item)
+            if isinstance(item, str) and item not in serializer.property_list:
+                serializer.property_list.append(item)
+    if isinstance(space, str):
+        serializer.gap = space[:10]
+    elif isinstance(space, (int, float)) and not isinstance(space, bool):
+        if not math.isnan(space):
+            serializer.gap = " " * int(max(0, min(10, space)))
+    holder = JSObject()
+    holder.set("", value)
+    return serializer.serialize("", holder, value)
